@@ -148,10 +148,42 @@ func c03GenResponse(rt *rapid.T, v primitive.ProtocolVersion, reqOp primitive.Op
 	if reqOp == primitive.OpCodePrepare {
 		errKinds = []string{"invalid", "syntax", "unauthorized", "already_exists", "config_error", "read_failure", "write_failure"}
 	}
-	switch k := rapid.IntRange(0, 9).Draw(rt, "respkind"); {
+	switch k := rapid.IntRange(0, 10).Draw(rt, "respkind"); {
+	case k == 10 && reqOp != primitive.OpCodePrepare:
+		// error frames the pinned protocol library cannot decode (newer error codes, newer write types):
+		// the proxy cannot take a retry decision on them and must pass them through untouched
+		var buf bytes.Buffer
+		msgText := "scripted exotic tok=" + token
+		switch rapid.IntRange(0, 3).Draw(rt, "exotic") {
+		case 0: // WRITE_TIMEOUT with write type CAS
+			_ = primitive.WriteInt(0x1100, &buf)
+			_ = primitive.WriteString(msgText, &buf)
+			_ = primitive.WriteShort(uint16(primitive.ConsistencyLevelQuorum), &buf)
+			_ = primitive.WriteInt(1, &buf)
+			_ = primitive.WriteInt(2, &buf)
+			_ = primitive.WriteString(rapid.SampledFrom([]string{"CAS", "VIEW", "CDC", "FUTURE_TYPE"}).Draw(rt, "exoticwt"), &buf)
+			note = "error:write_timeout-exotic-type"
+		case 1: // CDC_WRITE_FAILURE
+			_ = primitive.WriteInt(0x1600, &buf)
+			_ = primitive.WriteString(msgText, &buf)
+			note = "error:code-0x1600"
+		case 2: // CAS_WRITE_UNKNOWN
+			_ = primitive.WriteInt(0x1700, &buf)
+			_ = primitive.WriteString(msgText, &buf)
+			_ = primitive.WriteShort(uint16(primitive.ConsistencyLevelSerial), &buf)
+			_ = primitive.WriteInt(1, &buf)
+			_ = primitive.WriteInt(2, &buf)
+			note = "error:code-0x1700"
+		case 3:
+			_ = primitive.WriteInt(0x7777, &buf)
+			_ = primitive.WriteString(msgText, &buf)
+			buf.Write(protogen.Bytes(rt, "exotictail", rapid.IntRange(0, 20).Draw(rt, "exotictaillen")))
+			note = "error:code-unknown"
+		}
+		return primitive.OpCodeError, 0, buf.Bytes(), note
 	case k < 3:
 		kind := errKinds[rapid.IntRange(0, len(errKinds)-1).Draw(rt, "errkind")]
-		o := fakecass.Outcome{Kind: kind, WriteType: writeTypes[rapid.IntRange(0, 4).Draw(rt, "wt")]}
+		o := fakecass.Outcome{Kind: kind, WriteType: writeTypes[rapid.IntRange(0, 5).Draw(rt, "wt")]}
 		b.Message = fakecass.ErrorFor(o, "scripted "+kind+" tok="+token+" "+string(protogen.Bytes(rt, "errtext", rapid.IntRange(0, 40).Draw(rt, "errtextlen"))), v, []byte(token))
 		note = "error:" + kind
 	case k == 3:
@@ -293,7 +325,7 @@ func TestC03(t *testing.T) {
 	defer finish(t, rec)
 	rec.Assume("outcomes are restricted to replies the retry policy does not retry for the request's class, so every attempt carries the same bytes",
 		"v5 uses the legacy (pre-segment) frame layout, as the proxy and its own tests do; snappy is not paired with v5")
-	runProp(t, rec, "transparent", perShard(evid.Pick(1600, 64000)), func(rt *rapid.T) c03Case {
+	runProp(t, rec, "transparent", perShard(evid.Pick(6000, 120000)), func(rt *rapid.T) c03Case {
 		c := c03Gen(rt)
 		labels := []string{"max:" + protogen.VersionName(primitive.ProtocolVersion(c.MaxVersion)), "client:" + protogen.VersionName(primitive.ProtocolVersion(c.Version)), "comp:" + map[bool]string{true: c.Comp, false: "none"}[c.Comp != ""]}
 		key := ""
